@@ -564,3 +564,14 @@ Fixpoint parser_shaped (t : ty) : bool :=
     if is_container name then parser_shaped k && parser_shaped v
     else is_nil_ty k && is_nil_ty v
   end.
+
+(** names the grammar can produce do not start with a dot (Identifier starts with a letter or
+    '_'); checked by the judge on every tree the parser produced, assumed by the theorems *)
+Definition name_ok (n : str) : bool := match n with c :: _ => negb (c =? 46) | [] => true end.
+Definition top_name_ok (t : ty) : bool := match t with TNil => true | Ty n _ _ => name_ok n end.
+Fixpoint names_ok_b (depth : nat) (f : frugal) : bool :=
+  match depth with
+  | O => false
+  | S d => forallb (fun d0 => top_name_ok (snd d0)) (typedefs f)
+           && forallb (fun p => names_ok_b d (snd p)) (incs f)
+  end.
